@@ -357,6 +357,141 @@ def _(e):
 """)
 
 
+@variant('validate-restyle', 'C04')
+def _(e):
+    e.sub('lomond/frame.py', """        if self.is_control and len(self.payload) > 125:
+            raise errors.ProtocolError(
+                "control frames must be <= 125 bytes in length"
+            )
+        self.validate_reserved_bits()
+        if is_reserved(self.opcode):
+            raise errors.ProtocolError(
+                "opcode is reserved"
+            )
+        if not self.fin and self.is_control:
+            raise errors.ProtocolError(
+                "control frames may not be fragmented"
+            )
+""", """        control = self.is_control
+        if is_reserved(self.opcode):
+            raise errors.ProtocolError(
+                "opcode is reserved"
+            )
+        if control and not self.fin:
+            raise errors.ProtocolError(
+                "control frames may not be fragmented"
+            )
+        if control and len(self.payload) > 125:
+            raise errors.ProtocolError(
+                "control frames must be <= 125 bytes in length"
+            )
+        self.validate_reserved_bits()
+""")
+
+
+@variant('message-build-restyle', 'C01 C06')
+def _(e):
+    e.sub('lomond/message.py', """        first_frame = frames[0]
+        opcode = first_frame.opcode
+        if first_frame.rsv1 and decompress:
+            payload = cls.decompress_frames(frames, decompress)
+        else:
+            payload = b''.join(bytes(frame.payload) for frame in frames)
+        if opcode == Opcode.BINARY:
+            return Binary(payload)
+        elif opcode == Opcode.TEXT:
+            return Text.from_payload(payload)
+        elif opcode == Opcode.CLOSE:
+            return Close.from_payload(payload)
+        elif opcode == Opcode.PING:
+            return Ping(payload)
+        elif opcode == Opcode.PONG:
+            return Pong(payload)
+        else:
+            return Message(opcode)
+""", """        head = frames[0]
+        kind = head.opcode
+        compressed = bool(head.rsv1 and decompress)
+        if not compressed:
+            data = b''.join(bytes(frame.payload) for frame in frames)
+        else:
+            data = cls.decompress_frames(frames, decompress)
+        if kind == Opcode.TEXT:
+            return Text.from_payload(data)
+        if kind == Opcode.BINARY:
+            return Binary(data)
+        if kind == Opcode.PING:
+            return Ping(data)
+        if kind == Opcode.PONG:
+            return Pong(data)
+        if kind == Opcode.CLOSE:
+            return Close.from_payload(data)
+        return Message(kind)
+""")
+
+
+@variant('on-response-restyle', 'C10')
+def _(e):
+    f = 'lomond/websocket.py'
+    e.word(f, 'upgrade_header', 'upgrade', 'def on_response(self, response):')
+    e.word(f, 'accept_header', 'accept', 'def on_response(self, response):')
+    e.word(f, 'challenge', 'expected', 'def on_response(self, response):')
+    e.sub(f, """        protocol = response.get('sec-websocket-protocol')
+        extensions = self.process_extensions(
+            response.get_list('sec-websocket-extensions')
+        )
+        return protocol, extensions
+""", """        extensions = self.process_extensions(
+            response.get_list('sec-websocket-extensions')
+        )
+        protocol = response.get('sec-websocket-protocol')
+        return (protocol, extensions)
+""")
+
+
+@variant('connect-sock-restyle', 'C09 C19')
+def _(e):
+    f = 'lomond/session.py'
+    e.word(f, 'res', 'info', 'def _connect_sock(self, host, port, ssl=False):')
+    e.word(f, 'sa', 'address', 'def _connect_sock(self, host, port, ssl=False):')
+    e.word(f, 'canonname', '_name', 'def _connect_sock(self, host, port, ssl=False):')
+
+
+@variant('send-compressed-restyle', 'C03 C06 C11')
+def _(e):
+    e.sub('lomond/session.py', """        with self._lock:
+            if compress is not None:
+                data = compress(data)
+            frame = Frame(opcode, payload=bytearray(data), rsv1=1)
+            self.write(frame.to_bytes())
+""", """        with self._lock:
+            deflated = data if compress is None else compress(data)
+            frame = Frame(opcode, payload=bytearray(deflated), rsv1=1)
+            wire = frame.to_bytes()
+            self.write(wire)
+""")
+
+
+@variant('close-restyle', 'C08 C12 C03')
+def _(e):
+    e.sub('lomond/websocket.py', """        if self.is_closed:
+            log.debug('%r already closed', self)
+        else:
+            if not self.is_closing:
+                self._send_close(code, reason)
+                self.state.closing = True
+                self.state.sent_close_time = self.session.session_time
+""", """        if self.is_closed:
+            log.debug('%r already closed', self)
+            return
+        if self.is_closing:
+            return
+        self._send_close(code, reason)
+        self.state.closing = True
+        self.state.sent_close_time = self.session.session_time
+""")
+
+
 if __name__ == '__main__':
     if sys.argv[1] == '--list':
         for k, (c, _f) in V.items():
